@@ -527,6 +527,7 @@ func runC11(r *Run, rng *Rng, thorough bool) {
 		}
 	}
 	componentCopies(r, rng, map[bool]int{false: 200, true: 5000}[thorough])
+	surfaceContainer(r, rng, map[bool]int{false: 400, true: 20000}[thorough])
 }
 
 func validHistory(r *Rng, p int) []SetOp {
